@@ -1,0 +1,14 @@
+//go:build verif
+
+// Contracts for package local (file-system storage client), checked by /verif (govc). Comment-only; compiled only under
+// -tags verif. lastStatOK: whether the last os.Stat succeeded (/verif/stubs/stdlib.spec).
+package local
+
+// C11 (every manifest entry names a stored object): an object is reported as existing only when it could actually be
+// stat-ed; any other failure is an error (or "absent" for not-found), never "exists" - otherwise a keep-going run would
+// skip the write of a certificate that is not there and still list it in the manifest.
+//@ func (*StorageClient).Exists
+//@   requires s != nil
+//@   assigns nothing
+//@   modifies lastStatOK
+//@   ensures[C11] result1 == nil && result0 ==> lastStatOK
